@@ -6,6 +6,8 @@
 //! until long after W's timeout.  Oracles: if W reports a timeout, W2 must have been woken by that one notification;
 //! if W reports "notified", W2 is still waiting (and is released by a second notify at the end); nobody hangs; the
 //! mutex is held by each waiter when its wait returns (occupancy).
+//! The time line is scripted (W2 is waiting 300 us before the notify): not for variants with random stalls, in which W2
+//! may register after the notification and legitimately miss it.
 use mayv::*;
 use std::sync::atomic::{AtomicBool, AtomicUsize, Ordering::SeqCst};
 use std::sync::Arc;
